@@ -391,7 +391,10 @@ class Run:
         ev = {"property_id": self.pid, "tier": self.tier, "seed": self.seed, "level": spec.get("level", "proof"),
               "coverage": cov, "assumptions": spec.get("assumptions", []), "wall_s": round(wall, 2),
               "violations": len(self.violations)}
-        with open(os.path.join(VERIF, "evidence", self.pid + ".json"), "w") as f:
+        # self-test runs against a scratch tree (VERIF_REPO) must not overwrite the real evidence
+        evdir = os.path.join(VERIF, "evidence") if REPO == "/repo" else os.path.join(BUILD, "evidence-selftest")
+        os.makedirs(evdir, exist_ok=True)
+        with open(os.path.join(evdir, self.pid + ".json"), "w") as f:
             json.dump(ev, f, indent=1)
 
 
